@@ -25,8 +25,25 @@ def iter : PyVal → List PyVal
   | .str s => s.toList.map fun c => .str (String.ofList [c])
   | _ => []
 
-/-- `x in c` for a list/tuple/dict/str container -/
-def contains (c x : PyVal) : PyVal := .bool ((iter c).any fun y => pyEq y x)
+/-- `x in c`: substring test when both are strings; membership (`==`) for a list/tuple/dict container -/
+def contains (c x : PyVal) : PyVal :=
+  match c, x with
+  | .str s, .str t => .bool (strContains s t)
+  | _, _ => .bool ((iter c).any fun y => pyEq y x)
+
+/-- `s.lower()` (ASCII letters only: the callers' inputs are format names, MIME types and file names) -/
+def lower : PyVal → PyVal
+  | .str s => .str (asciiLower s)
+  | v => v
+
+/-- `s.endswith(suffix)` / `s.endswith((suffix, …))` -/
+def endswith : PyVal → PyVal → PyVal
+  | .str s, .str suf => .bool (strEndsWith s suf)
+  | .str s, .list sufs => .bool (sufs.any fun x => match x with | .str suf => strEndsWith s suf | _ => false)
+  | _, _ => .bool false
+
+/-- `any(f(x) for x in it)` -/
+def anyOf (it : PyVal) (f : PyVal → PyVal) : PyVal := .bool ((iter it).any fun x => (f x).truthy)
 
 /-- `len(v)` -/
 def len : PyVal → Int
